@@ -2,7 +2,11 @@ import Juniper.Proofs.BatchEnd
 /-!
 C11 helper lemmas: `Close` returns. After `bgCancel()` every step of a goroutine or of the runtime
 strictly decreases a measure over the producer, the batcher and the timer, and a state in which no
-such step is enabled has both goroutines finished and `wg.Wait()` returned.
+such step is enabled has both goroutines finished and `wg.Wait()` returned. The environment can raise
+the measure again — only by letting the source hand out one more item (`srcRet (.item _)`, +4: a source
+need not look at its context before answering) —, so the run-level statement is
+`measure (end) + #internal steps ≤ measure (start) + 4 · #items handed out along the run`
+(`close_run_bound`).
 -/
 namespace Juniper.Proofs.Batch
 open Juniper.Model.Batch
@@ -50,6 +54,7 @@ theorem measure_decreases {cfg : Cfg} {s s' : State} {l : Label} (h1 : Inv1 cfg 
   | ctxExpire => cases hl
   | tick d => cases hl
   | close => cases hl
+  | bgEnds => cases hl
   | prodCancelled =>
     unfold_step at h <;> (repeat' split at h) <;> cases h <;> close_meas
   | prodSend =>
@@ -90,8 +95,8 @@ theorem quiescent_closed {cfg : Cfg} {s : State} (h3 : Inv3 cfg s)
     (hq : Quiescent good cfg s) : s.ppc = .done ∧ s.bpc = .done ∧ s.closeReturned = true := by
   have hp : s.ppc = .done := by
     cases hp : s.ppc with
-    | next => have := hq .prodCancelled rfl; simp [step, hp, hc] at this
-    | send v => have := hq .prodSendCancel rfl; simp [step, hp, hc, good] at this
+    | next => have := hq .prodCancelled rfl; simp [step, hp, hc, good, bgDone, Code.bgMayEnd] at this
+    | send v => have := hq .prodSendCancel rfl; simp [step, hp, hc, good, bgDone, Code.bgMayEnd] at this
     | closeC => have := hq .prodCloseC rfl; simp [step, hp] at this
     | closeSrc => have := hq .prodCloseSrc rfl; simp [step, hp] at this
     | done => rfl
@@ -107,12 +112,113 @@ theorem quiescent_closed {cfg : Cfg} {s : State} (h3 : Inv3 cfg s)
       have := hq (.fullRet b) rfl
       simp only [step, hb, hb', and_self, if_true] at this
       split at this <;> cases this
-    | flush r => have := hq .flushAbort rfl; simp [step, hb, hc, good] at this
+    | flush r => have := hq .flushAbort rfl; simp [step, hb, hc, good, bgDone, Code.bgMayEnd] at this
     | exit => have := hq .batchExit rfl; simp [step, hb] at this
     | done => rfl
   refine ⟨hp, hb, ?_⟩
   have := hq .closeReturn rfl
   simp [step, hp, hb, hc] at this
   exact this
+
+/-! ## Run-level bound: what the environment can add after `Close` -/
+
+/-- items the source hands out along a run -/
+def itemCount : List Label → Nat
+  | [] => 0
+  | .srcRet (.item _) :: ls => itemCount ls + 1
+  | _ :: ls => itemCount ls
+
+/-- steps of the goroutines / the runtime along a run -/
+def internalCount : List Label → Nat
+  | [] => 0
+  | l :: ls => (if l.internal then 1 else 0) + internalCount ls
+
+/-- what an environment label can add to the measure: 4 for an item, nothing otherwise -/
+def envCost : Label → Nat
+  | .srcRet (.item _) => 4
+  | _ => 0
+
+theorem measure_env {cfg : Cfg} {s s' : State} {l : Label} (h1 : Inv1 cfg s)
+    (hc : s.bgCancelled = true) (hl : l.internal = false)
+    (h : step good cfg s l = some s') : s'.bgCancelled = true ∧ measure s' ≤ measure s + envCost l := by
+  have hidle := h1.c1 hc
+  cases l with
+  | srcRet ev =>
+    cases ev <;> unfold_step at h <;> (repeat' split at h) <;> cases h <;> simp_all [measure, rankP, envCost] <;> omega
+  | srcCancelErr w =>
+    unfold_step at h <;> (repeat' split at h) <;> cases h <;> simp_all [measure, rankP, envCost] <;> omega
+  | nextCall live => unfold_step at h <;> (repeat' split at h) <;> cases h <;> simp_all
+  | ctxExpire => unfold_step at h <;> (repeat' split at h) <;> cases h <;> simp_all
+  | tick d => unfold_step at h <;> cases h <;> simp_all [measure, envCost]
+  | close => unfold_step at h <;> (repeat' split at h) <;> cases h <;> simp_all
+  | bgEnds => unfold_step at h <;> cases h
+  | prodCancelled => cases hl
+  | prodSend => cases hl
+  | prodSendCancel => cases hl
+  | prodCloseC => cases hl
+  | prodCloseSrc => cases hl
+  | fullRet b => cases hl
+  | recvCClosed => cases hl
+  | recvTimer => cases hl
+  | flushAbort => cases hl
+  | batchExit => cases hl
+  | announce => cases hl
+  | deliver => cases hl
+  | consClosed => cases hl
+  | consCtx => cases hl
+  | timerExpire => cases hl
+  | closeReturn => cases hl
+
+
+/-- **Run-level bound after `Close`.** Along any run from a reachable state in which `bgCancel()` has
+run, the background context stays cancelled and
+`measure (end) + #internal steps ≤ measure (start) + 4 · #items the source hands out along the run`. -/
+theorem close_run_bound {cfg : Cfg} {s : State} (h : Reach good cfg s) (hc : s.bgCancelled = true) :
+    ∀ (ls : List Label) (s' : State), run good cfg s ls = some s' →
+      s'.bgCancelled = true ∧ measure s' + internalCount ls ≤ measure s + 4 * itemCount ls := by
+  intro ls
+  induction ls generalizing s with
+  | nil =>
+    intro s' hr
+    simp only [run, Option.some.injEq] at hr
+    subst hr
+    exact ⟨hc, by simp [internalCount, itemCount]⟩
+  | cons l ls ih =>
+    intro s' hr
+    simp only [run] at hr
+    split at hr
+    · rename_i s1 hstep
+      have h1 := inv1_reach h
+      have hr1 := Reach.step l h hstep
+      cases hl : l.internal with
+      | true =>
+        have hd := measure_decreases h1 hc hl hstep
+        have := ih hr1 hd.1 s' hr
+        refine ⟨this.1, ?_⟩
+        have hic : itemCount ls ≤ itemCount (l :: ls) := by
+          cases l with
+          | srcRet ev => cases ev <;> simp [itemCount]
+          | _ => simp [itemCount]
+        simp only [internalCount, hl, if_true]
+        have := this.2
+        omega
+      | false =>
+        have hd := measure_env h1 hc hl hstep
+        have := ih hr1 hd.1 s' hr
+        refine ⟨this.1, ?_⟩
+        have hic : 4 * itemCount ls + envCost l ≤ 4 * itemCount (l :: ls) := by
+          cases l with
+          | srcRet ev => cases ev <;> simp [itemCount, envCost] <;> omega
+          | _ => simp [itemCount, envCost]
+        simp only [internalCount, hl, Bool.false_eq_true, if_false]
+        have := this.2
+        have := hd.2
+        omega
+    · cases hr
+
+theorem measure_le (s : State) : measure s ≤ 16 := by
+  have := rankT_le s.timer
+  cases hp : s.ppc <;> cases hb : s.bpc <;> simp [measure, rankP, rankB, hp, hb] <;> split <;> omega
+
 
 end Juniper.Proofs.Batch
